@@ -18,8 +18,9 @@ import gen as sgen  # noqa: E402
 RUNNER = Path(__file__).resolve().parent / 'runner.py'
 
 
-def run_workers(cases: List[dict], workers: int = 16, timeout: int = 1500) -> List[dict]:
-    """Run cases on `workers` runner processes; results in input order."""
+def run_workers(cases: List[dict], workers: int = 16, timeout: int = 1500, _retry: bool = True) -> List[dict]:
+    """Run cases on `workers` runner processes; results in input order.  A worker process that dies
+    (overloaded machine, killed by the timeout) has its unanswered cases re-run once on fewer workers."""
     if not cases:
         return []
     workers = max(1, min(workers, len(cases)))
@@ -29,29 +30,45 @@ def run_workers(cases: List[dict], workers: int = 16, timeout: int = 1500) -> Li
     for ch in chunks:
         p = subprocess.Popen(
             ['timeout', '-k', '10', str(timeout), sys.executable, '-B', str(RUNNER)],
-            stdin=subprocess.PIPE, stdout=subprocess.PIPE, stderr=subprocess.DEVNULL, text=True, env=env)
+            stdin=subprocess.PIPE, stdout=subprocess.PIPE, stderr=subprocess.PIPE, text=True, env=env)
         procs.append((p, ch))
     # feed all, then collect (inputs are small; outputs are read fully by communicate)
     import threading
     outs = [None] * len(procs)
 
+    errs = [''] * len(procs)
+
     def comm(k, p, ch):
-        outs[k] = p.communicate(''.join(json.dumps(c) + '\n' for c in ch))[0]
+        outs[k], errs[k] = p.communicate(''.join(json.dumps(c) + '\n' for c in ch))
     threads = [threading.Thread(target=comm, args=(k, p, ch)) for k, (p, ch) in enumerate(procs)]
     for t in threads:
         t.start()
     for t in threads:
         t.join()
     by_id = {}
-    for (p, ch), out in zip(procs, outs):
-        lines = [json.loads(ln) for ln in (out or '').splitlines() if ln.strip()]
+    lost: List[dict] = []
+    why = ''
+    for (p, ch), out, err in zip(procs, outs, errs):
+        lines = []
+        for ln in (out or '').splitlines():
+            try:
+                lines.append(json.loads(ln))
+            except ValueError:
+                pass                      # a line cut short by the death of the worker
+        fatal = [r for r in lines if 'fatal' in r]
         for r in lines:
-            if 'fatal' in r:
-                raise Infra(f'scheduler worker failed: {r["fatal"][-600:]}')
+            if 'fatal' not in r and 'id' in r:
+                by_id[r['id']] = r
+        missing = [c for c in ch if c['id'] not in by_id]
+        if missing:
+            lost += missing
+            why = (f'scheduler worker returned {len(lines) - len(fatal)} of {len(ch)} results (rc={p.returncode}): '
+                   + (fatal[0]['fatal'][-600:] if fatal else (err or '').strip()[-600:]))
+    if lost:
+        if not _retry:
+            raise Infra(why + f'; missing {[c["id"] for c in lost][:3]}')
+        for r in run_workers(lost, max(1, min(4, workers // 4)), timeout, _retry=False):
             by_id[r['id']] = r
-        if len(lines) != len(ch):
-            missing = [c['id'] for c in ch if c['id'] not in by_id]
-            raise Infra(f'scheduler worker returned {len(lines)} of {len(ch)} results (rc={p.returncode}); missing {missing[:3]}')
     return [by_id[c['id']] for c in cases]
 
 
